@@ -74,7 +74,8 @@ EXTENDS Integers, Sequences, FiniteSets, TLC, Functors, Json, RamData
 
 SeqSet(s) == {s[i] : i \in 1..Len(s)}
 RelNamesR == {RamProg.relations[i].name : i \in 1..Len(RamProg.relations)}
-RelInfoR(n) == LET i == CHOOSE j \in 1..Len(RamProg.relations) : RamProg.relations[j].name = n IN RamProg.relations[i]
+RelIndexR == [n \in RelNamesR |-> CHOOSE j \in 1..Len(RamProg.relations) : RamProg.relations[j].name = n]   \* evaluated once
+RelInfoR(n) == RamProg.relations[RelIndexR[n]]
 IsEqrel(n) == RelInfoR(n).repr = "eqrel"
 ColIsUnsigned(n, c) == RelInfoR(n).attrTypes[c] = "u"
 
@@ -231,10 +232,13 @@ RECURSIVE KeyLess(_, _, _, _)
 KeyLess(o, t, u, i) == IF i > Len(t) THEN FALSE
                        ELSE IF RankOf(o, t[i]) # RankOf(o, u[i]) THEN RankOf(o, t[i]) < RankOf(o, u[i])
                        ELSE KeyLess(o, t, u, i + 1)
-RECURSIVE SortBy(_, _), ChooseSeq(_)
+SX == INSTANCE SequencesExt
+RECURSIVE SortBy(_, _)
 SortBy(o, X) == IF X = {} THEN <<>>
                 ELSE LET m == CHOOSE t \in X : \A u \in X \ {t} : KeyLess(o, t, u, 1) IN <<m>> \o SortBy(o, X \ {m})
-ChooseSeq(X) == IF X = {} THEN <<>> ELSE LET x == CHOOSE y \in X : TRUE IN <<x>> \o ChooseSeq(X \ {x})
+\* TLC's own enumeration order of the set: the sequence <<CHOOSE y \in X : TRUE, CHOOSE y \in X \ {that} : TRUE, ..>>,
+\* computed by the Java override of SequencesExt!SetToSeq (same order, linear instead of quadratic)
+ChooseSeq(X) == SX!SetToSeq(X)
 SetToSeq(X, V) == IF RamOrders[V["@ord"]] = <<>> THEN ChooseSeq(X) ELSE SortBy(RamOrders[V["@ord"]], X)
 
 InsertT(D, rel, t) == [D EXCEPT ![rel] = IF IsEqrel(rel) THEN EqCloseR(@ \cup {t}) ELSE @ \cup {t}]
